@@ -10,12 +10,13 @@ CONSTANTS
   EncChoices = {FALSE, TRUE}
   ByValueMax = 2
   AllowConflicts = FALSE
-  Features = {}
+  Features = {"custom"}
   Window = 2
   Retention = 2
   BurstSizes = {1, 2}
   PskIds = {}
   PskValues = {"none"}
+  JitterChoices = {99999}
   Deviations = {"F12", "F14"}
   MaxApps = 0
   Depth = 70
